@@ -99,10 +99,20 @@ def preimage(x, kind, arg):
         strat = U.LetterSwap(shift=n - shift)  # inverse rotation applied to x gives z
         z = strat.decomposition_function(x)[0]
         return z, ["LetterSwap", {"shift": shift}]
+    if kind == "transpose":
+        if len(x.alphabet) < 2:
+            raise Refused("alphabet too small")
+        strat = U.LetterSwap(shift=0, swap=True)  # an involution
+        z = strat.decomposition_function(x)[0]
+        return z, ["LetterSwap", {"shift": 0, "swap": True}]
     if kind == "letter":
         # Z = C+(p) (words longer than p) whose only non-empty child is C(pa) = x
         if not x.prefix or x.just_prefix or x.strict:
             raise Refused("no letter to remove")
+        if arg & 4 and x.stats:
+            # the same with the statistics renamed between Z and its child
+            z = x.derive(prefix=x.prefix[:-1], strict=True, pool=1 - x.pool)
+            return z, ["Expand", {"order": arg % 4, "xf_rest": "rename"}]
         z = x.derive(prefix=x.prefix[:-1], strict=True)
         return z, ["Expand", {"order": arg % 4}]
     raise Refused(f"unknown pre-image kind {kind}")
@@ -240,7 +250,7 @@ def strategy_desc(draw):
         return draw(gen.factor_desc())
     if r <= 8:
         return draw(gen.unary_desc())
-    return ["LetterSwap", {"shift": draw(st.integers(1, 2))}]
+    return draw(gen.letter_desc())
 
 
 @st.composite
@@ -252,11 +262,11 @@ def path_steps(draw):
             if r == 0:
                 steps.append(["fwd", draw(gen.expand_desc())])
             elif r == 1:
-                steps.append(["fwd", ["LetterSwap", {"shift": draw(st.integers(1, 2))}]])
+                steps.append(["fwd", draw(gen.letter_desc())])
             else:
                 steps.append(["fwd", draw(gen.unary_desc())])
         else:
-            steps.append(["bwd", draw(st.sampled_from(["pattern", "zero-stat", "zero-stat-front", "rename", "rename", "dup-stat", "swap", "letter", "perm", "perm"])), draw(st.integers(0, 7))])
+            steps.append(["bwd", draw(st.sampled_from(["pattern", "zero-stat", "zero-stat-front", "rename", "rename", "dup-stat", "swap", "transpose", "letter", "perm", "perm"])), draw(st.integers(0, 7))])
     return steps
 
 
@@ -335,7 +345,7 @@ def applicable_case(draw, tier="quick"):
         sdesc = ["StatPerm", {"kind": draw(st.sampled_from(["rot", "swap"])), "two_way": True}]
     else:
         prefix = _avoiding_prefix(draw, alphabet, pats, draw(st.integers(0, 3)))
-        sdesc = ["LetterSwap", {"shift": draw(st.integers(1, k - 1))}]
+        sdesc = ["LetterSwap", {"shift": draw(st.integers(1, k - 1)), "swap": k >= 3 and draw(st.booleans())}]
     if strict and all(any(p in prefix + a for p in pats) for a in alphabet):
         strict = 0
     if kind == "Factor" and draw(st.integers(0, 2)) == 0:
